@@ -172,7 +172,7 @@ OutStrEsc(v) ==
 \* values whose string form the documentation does not fix (see UNSPECIFIED.md):
 \* hashes (and drops), also inside arrays
 RECURSIVE Unprintable(_)
-Unprintable(v) == \/ v.t \in {"hash", "forloop"}
+Unprintable(v) == \/ v.t \in {"hash", "forloop", "trloop", "blockdrop"}
                   \/ (v.t = "arr" /\ \E i \in DOMAIN v.v : Unprintable(v.v[i]))
 
 RECURSIVE Exotic(_)
